@@ -93,6 +93,9 @@ func findSelectorExprViolation(
 		return nil
 	}
 
+	// A type alias (type A = pkg.T) denotes the aliased type: check the type it stands for
+	obj = resolveTypeAlias(obj)
+
 	// Get package information
 	pkg := obj.Pkg()
 	if pkg == nil {
@@ -132,6 +135,11 @@ func findIdentViolation(
 	obj := ctx.pass.TypesInfo.ObjectOf(ident)
 	if obj == nil {
 		return nil
+	}
+
+	// A local type alias (type A = pkg.T) denotes the aliased type: check the type it stands for
+	if aliased := resolveTypeAlias(obj); aliased != obj && aliased.Pkg() != nil {
+		return findTypeViolation(ctx, aliased.Pkg().Path(), aliased.Name(), ident.Pos())
 	}
 
 	// Only check local package objects (imports are handled by selector expressions)
@@ -284,4 +292,20 @@ func findMethodViolation(
 	}
 
 	return nil
+}
+
+// resolveTypeAlias returns the defined type's object when obj is a type alias for a
+// defined type (possibly through a chain of aliases), and obj itself otherwise
+func resolveTypeAlias(obj types.Object) types.Object {
+	typeName, ok := obj.(*types.TypeName)
+	if !ok || !typeName.IsAlias() {
+		return obj
+	}
+
+	named, ok := types.Unalias(typeName.Type()).(*types.Named)
+	if !ok || named.Obj() == nil || named.Obj().Pkg() == nil {
+		return obj
+	}
+
+	return named.Obj()
 }
